@@ -157,7 +157,11 @@ func runC03(c *Ctx) {
 		// removeTmpFiles removes exactly the .tmp-suffixed regular files
 		if rt := c.fn(rule, "ls.removeTmpFiles"); rt != nil {
 			n := 0
-			for _, f := range withClosures(rt) {
+			fs := withClosures(rt)
+			for _, h := range deepFuncs(rt)[1:] {
+				fs = append(fs, withClosures(h)...)
+			}
+			for _, f := range fs {
 				for _, call := range callsTo(f, nameIs("os.Remove")) {
 					n++
 					c.requireGuard(rule, f, Site{call, "os.Remove(path)"}, truthFact(vCall("strings.HasSuffix", nil, vConstStr(".tmp")), true, "strings.HasSuffix(path, \".tmp\")"))
@@ -318,6 +322,9 @@ func runC03(c *Ctx) {
 		const rule = "R6-staged-file-removed-on-failure"
 		n := 0
 		for _, rs := range renameSites(c.P) {
+			if rs.Delegated {
+				continue // checked at the publish helper's call sites (lifted sites)
+			}
 			fn := rs.Fn
 			name := fnName(fn)
 			// opener of src in fn (or a producer callee)
@@ -497,5 +504,5 @@ func createTruncRule(c *Ctx, rule string) {
 				"a file is created for writing without O_TRUNC: the tail of a longer leftover of an earlier, failed attempt stays behind the new content (for a WAL being reassembled: valid frames of a later state)")
 		}
 	}
-	c.floor(rule, n, 2, "os.OpenFile(O_CREATE|write) sites with constant flags")
+	c.floor(rule, n, 1, "os.OpenFile(O_CREATE|write) sites with constant flags")
 }
